@@ -40,7 +40,9 @@ type normalizer struct {
 	edits map[string][]textEdit
 	notes []string
 	// suffix given to the locals of the callee inlined last (normalize2.go)
-	lastSfx string
+	lastSfx      string
+	parserMode   bool            // passes applied to the parser: helpers with loops stay calls
+	addedImports map[string]bool // file\x00path already inserted by ensureImports
 }
 
 func (n *normalizer) file(pos token.Pos) (string, int) {
